@@ -45,7 +45,13 @@ Definition copied_t (cached : option (list T)) : option (list T) := cached.
 (* __getitem__ with a slice [a:b] (step 1): new dt = dt[a:b], caches empty *)
 Definition slice {A} (a b : nat) (l : list A) : list A := firstn (b - a) (skipn a l).
 
+(* __getitem__ with an arbitrary key (slice with any step, negative steps, integer): numpy selects the
+   segments range(len(dt))[key]; the new pulse has their dt and coefficient columns, caches empty *)
+Definition select {A} (dflt : A) (idxs : list nat) (l : list A) : list A := map (fun i => nth i l dflt) idxs.
+
 (* ---------- propagator_at_arb_t ---------- *)
+(* since /repo d28f031: ValueError if (t > self.t[-1]).any() *)
+Definition arb_t_rejects (ts : list T) (tq : T) : B := ogt Op tq (last_t ts).
 (* e^{-i s H} from spectral data: 'ij,j,kj->ik' with cexp(- s ev_j); [arg j] is the phase of column j *)
 Definition spectral_exp (V : Matc) (arg : nat -> T) : Matc :=
   mbuild d d (fun i k => csumn Op d (fun j =>
